@@ -102,9 +102,13 @@ fn convert_dvars(mps: &Mps) -> (Vec<v1::DecisionVariable>, HashMap<ColumnName, u
 
 /// Strips the prefix of a variable/constraint name, and parses the following id number.
 ///
-/// Returns none if prefix is not present, or if parsing as u64 fails.
+/// Returns none if prefix is not present, or if the rest is not the decimal rendering of a u64
+/// as this crate writes it: `OMMX_VAR_01` or `OMMX_VAR_+1` are ordinary names, otherwise two
+/// distinct names would be given the same id.
 fn parse_id_tag(prefix: &str, name: &str) -> Option<u64> {
-    name.strip_prefix(prefix)?.parse().ok()
+    let digits = name.strip_prefix(prefix)?;
+    let id: u64 = digits.parse().ok()?;
+    (id.to_string() == digits).then_some(id)
 }
 
 // name_id_map helps us convert from column name to id.
